@@ -193,6 +193,18 @@ pub fn similar_args() -> Vec<Value> {
     ]
 }
 
+/// long arguments of the same length that agree in their first two thousand bytes (pairs)
+pub fn long_twin_args() -> Vec<Value> {
+    vec![
+        Value::String(format!("{}a", "x".repeat(2200))),
+        Value::String(format!("{}b", "x".repeat(2200))),
+        Value::Vec((0..400).map(Value::Int).chain([Value::Int(1)]).collect()),
+        Value::Vec((0..400).map(Value::Int).chain([Value::Int(2)]).collect()),
+        Value::Map((0..120).map(|i| (format!("key{i:03}"), Value::Int(i))).chain([("z".to_string(), Value::Int(1))]).collect()),
+        Value::Map((0..120).map(|i| (format!("key{i:03}"), Value::Int(i))).chain([("z".to_string(), Value::Int(2))]).collect()),
+    ]
+}
+
 /// argument renderings for which "the same argument" is not determined by the property
 pub fn is_twin_key(arg_key: &str) -> bool {
     ["f0e0", "f-0.0", "d10e-1", "d100e-2", "fNaN"].iter().any(|t| arg_key.contains(t))
